@@ -205,7 +205,8 @@ def run(ctx):
     e4 = e4mod.get(model)
     nv = 0
     for f in e4.findings:
-        if f.kind == "rule_u" and model.names.reg_name("apps") in f.construct:
+        if f.kind == "rule_u" and (model.names.reg_name("apps") in f.construct or
+                                   model.names.reg_name("mailboxes") in f.construct):
             nv += 1
             ctx.ob("R12.vis", f.construct, f.ok, f.site, f.detail +
                    ("" if f.ok else " -- listeners registered through the dropped object "
